@@ -660,7 +660,7 @@ func RunC19(e *Env) (int, error) {
 
 	t0 := time.Now()
 	viol, err := e.Drive(n, fn, finish)
-	ev.Coverage["rule"] = "histories of <= " + fmt.Sprint(maxCalls) + " calls (MergeDocument/MergeFileLayers/Documents/Output/OutputDocuments/OutputToWriter/OutputToFile) generated from the seed over directive-laden single and multi-document streams with layering, cross-document references, writer/file faults and evaluation failures part-way; each run executes the history on parser P, the merge calls only on a shadow parser S, and every output call on a fresh parser; non-trivial = at least one output call followed by a further call on documents with at least one planted directive; distinct = canonical op list"
+	ev.Coverage["rule"] = "histories of <= " + fmt.Sprint(maxCalls) + " calls (MergeDocument/MergeFileLayers/Documents/Output/OutputDocuments/OutputToWriter/OutputToFile) generated from the seed over directive-laden single and multi-document streams with layering, cross-document references, writer/file faults, evaluation failures part-way, changes of the process environment between calls (Setenv), debug logging on the observed parser (8%), layer files with every $ spelled as an escape (30% of file chains); each run executes the history on parser P, the merge calls only on a shadow parser S, and every output call on a fresh parser; non-trivial = at least one output call followed by a further call on documents with at least one planted directive; distinct = canonical op list"
 	ev.Coverage["loop_seconds"] = time.Since(t0).Seconds()
 	ev.Coverage["worker_crashes"] = pool.Crashes.Load()
 	ev.Assumptions = []string{
